@@ -677,7 +677,7 @@ SCHEMA_LOOPY = r'''
 #p3: "lab"/"c"/_/#KEY <= #q1 | #q2
 #data: "lab"/"data"/_ <= #p1
 '''
-LOOP_KINDS = ('intact', 'intact-two-at-once', 'intact-second-while-waiting', 'two-cycle-one-full-name', 'two-cycle', 'three-cycle', 'names-itself', 'cycle-behind-intact-prefix')
+LOOP_KINDS = ('intact', 'intact-debug-logging', 'two-cycle-debug-logging', 'intact-two-at-once', 'intact-second-while-waiting', 'two-cycle-one-full-name', 'two-cycle', 'three-cycle', 'names-itself', 'cycle-behind-intact-prefix')
 
 
 def loopy_world(kind):
@@ -718,6 +718,11 @@ def loopy_world(kind):
 
 
 def run_loops(kind):
+    if kind.endswith('-debug-logging'):
+        # the verdict (and whether the validator can be built at all) does not depend on the logging configuration
+        from mc.ndnenv import debug_logging
+        with debug_logging():
+            return [(sg.replace('|loops|', '|loops-debug-logging|'), w + ' (DEBUG logging enabled)') for sg, w in run_loops(kind[:-len('-debug-logging')])]
     viol = []
     install_lark_cache()
     certs, pk = loopy_world(kind)
@@ -782,6 +787,8 @@ def run_loops(kind):
             viol.append((f"C14|loops|{kind}|task-error|{f['exception']}@{f['where']}", f'{f}'))
     except HorizonExceeded:
         viol.append((f'C14|loops|{kind}|never-finishes', 'the validation keeps the loop busy beyond the horizon'))
+    except Exception as e:  # noqa
+        viol.append((f'C14|loops|{kind}|raises:{type(e).__name__}@{tb_where(e)}', f'{e!r}'))
     finally:
         net.close()
     return viol
